@@ -312,6 +312,19 @@ def build(rep, spec_mod):
                     setattr(cur, nm.split(".")[-1], Script(nm, log, plan))
             except Exception:
                 pass
+    # object-typed parameters are passed too (only those the real function declares)
+    try:
+        import inspect
+        fobj = getattr(cls, mname) if cls is not None else getattr(mod, mname)
+        pnames = set(inspect.signature(fobj).parameters)
+        for n_, o_ in roots.items():
+            if n_ != "self" and n_ in pnames:
+                args.setdefault(n_, o_)
+        for n_ in list(args):
+            if n_ not in pnames and not any(p.kind == p.VAR_KEYWORD for p in inspect.signature(fobj).parameters.values()):
+                del args[n_]
+    except (TypeError, ValueError, AttributeError):
+        pass
     return mod, cls, mname, roots, args, log
 
 
@@ -420,6 +433,10 @@ def run_once(rep, path):
         env[k] = roots.get(v, env.get(v))
     for n in dir(mod):
         env.setdefault(n, getattr(mod, n))
+        if not n.startswith("__"):
+            vars(cmod).setdefault(n, getattr(mod, n))      # specification functions of the contract file see the target module's names
+    for k_ in ("implies", "iff", "old", "calls_to", "raised", "returned", "encodable"):
+        vars(cmod).setdefault(k_, env[k_])
     try:
         val = eval(rep["clause"], env)
         out["confirmed"] = not bool(val)
